@@ -102,11 +102,13 @@ func AfterFunc(d Duration, f func()) *Timer {
 		return time.AfterFunc(d, f)
 	}
 	seq := s.NewTimerSeq()
-	return time.AfterFunc(d, func() {
+	t := time.AfterFunc(d, func() {
 		if s2 := vsched.Active(); s2 == s {
 			done := s.EnterTimer(seq)
 			defer done()
 		}
 		f()
 	})
+	s.RegisterTimer(seq, t)
+	return t
 }
